@@ -69,24 +69,25 @@ class ParseUserData:
         name = (self.creatorID.lower() + "%04X" % self.compID).lower()
         userDataParserMod = "udparsers." + name + "." + name
         try:
-            if userDataParserMod in userDataParsers:
-                cls = userDataParsers[userDataParserMod]
-            else:
-                cls = importlib.import_module(userDataParserMod)
-                userDataParsers[userDataParserMod] = cls
+            try:
+                if userDataParserMod in userDataParsers:
+                    cls = userDataParsers[userDataParserMod]
+                else:
+                    cls = importlib.import_module(userDataParserMod)
+                    userDataParsers[userDataParserMod] = cls
+            except ImportError:
+                # No print for informational purposes, this is encountered often, e.g. PHYP
+                # Only a failing import of the module itself marks it as
+                # missing; an error while using it must not.
+                userDataParsers[userDataParserMod] = None
+                cls = None
             if self.data:
                 mv = memoryview(self.data)
                 if cls is None:
-                    # The module, which was previously checked, is not found.
+                    # The module is not found (now or previously checked).
                     return json.dumps(hexdump(mv))
                 else:
                     return cls.parseUDToJson(self.subType, self.version, mv)
-        except ImportError:
-            userDataParsers[userDataParserMod] = None
-            # No print for informational purposes, this is encountered often, e.g. PHYP
-            if self.data:
-                mv = memoryview(self.data)
-                return json.dumps(hexdump(mv))
         except Exception as e:
             d = dict()
             # in case we do NOT have data, dump the Error at a minimum
